@@ -151,18 +151,21 @@ def run(repo: Repo, chk: Check, thorough: bool = False) -> None:
             raise AnalysisError(f'R19.1: Visitor.{wname}: expected one self.visit(...) call and one loop over the children')
         vs_ = cw.stmt_of(vc[0])
         for name in sorted(pruning):
-            if wname == 'walk' and name == 'SkipSiblings':
-                continue      # walk() (visit-only traversal, used by tests) lets it propagate to the parent's loop; not part of the walkabout contract
             h = _exc_flow(wf, vs_, name, repo)
-            if h is None:
+            if h is None and wname == 'walkabout':
                 continue      # reported above for walkabout
-            got = children_reached(wf, cw, h, lps[0])
+            # walk() is the sibling of walkabout() and documents the same pruning actions ("SkipSiblings: ... the current node's children are not
+            # affected"): an exception that visit() raises and walk() does not catch leaves before the children loop (an exclusion this rule used to
+            # make for walk + SkipSiblings was wrong - F11 had repaired exactly this in walkabout and left walk alone)
+            got = children_reached(wf, cw, h, lps[0]) if h is not None else False
             want = EXPECT_CHILDREN[name]
             chk.ob('R19.1', f'{VIS}.{wname} :: {name} raised by visit() - children {"are" if want else "are not"} walked', got == want,
                    ('children loop reached after the handler' if got else 'children loop not reached') if got == want else
-                   (f'after `except {", ".join(handler_names(h))}` the loop over the children is not reached any more: a node whose visit raises {name} loses its '
-                    'whole subtree, for the main visitor and every extension' if want else
-                    f'after `except {", ".join(handler_names(h))}` the children are still walked although {name} prunes them'), f'{wf.mod.relpath}:{h.lineno}')
+                   ((f'after `except {", ".join(handler_names(h))}` the loop over the children is not reached any more' if h is not None else
+                     f'{name} raised by visit() is not caught in {wname}(): it leaves before the loop over the children') +
+                    f': a node whose visit raises {name} loses its whole subtree, for the main visitor and every extension' if want else
+                    f'after `except {", ".join(handler_names(h)) if h is not None else "?"}` the children are still walked although {name} prunes them'),
+                   f'{wf.mod.relpath}:{h.lineno if h is not None else vs_.lineno}')
     chk.require('R19.1', 12)
 
     # ------------------------------------------------------------------ R19.2
